@@ -36,9 +36,17 @@ from harness.framework import run_check, MachineryError, VERIF
 SPEC = os.path.join(VERIF, 'specs', 'Stream')
 REMAX = 6
 
+ALL_SHAPES = ('{"one", "rep", "rep3", "word", "eq", "prefix", "nested", '
+              '"suffix", "lexopp", "lexsame"}')
+# separator presets: only "\\n" / a few shapes (state space of the exhaustive
+# runs grows with the number of separators offered)
+NL_ONLY = dict(SepShapes='{}', Regexes='{}')
+FEW_SEPS = dict(SepShapes='{"word", "nested", "lexopp"}', Regexes='{"reK"}')
+
 BASE = dict(DTs='{"out"}', MaxLen=4, MaxErr=0, Marks='{}', MaxMarks=0,
             Windows='{1, 2, 9}', Ns='{0, 1, 2, 4, 5}', ReadAll='TRUE',
-            Seps='{"nl", "ab", "tup", "re0", "reK"}', ReMax=REMAX,
+            SepShapes=ALL_SHAPES, SepPer=1, MaxSepLen=2,
+            Regexes='{"re0", "reK"}', SepFix='TRUE', ReMax=REMAX,
             MaxBatch=2, MaxCalls=0, Proc='FALSE', Redir='FALSE',
             Policy='"any"', PrintAt=0, SearchBug='FALSE', CloseBug='FALSE',
             ResumeFix='TRUE', CollectFix='TRUE')
@@ -81,7 +89,7 @@ class Job:
                         self.invariants + (['PrintCase'] if self.cases else []),
                         view=not self.cases)
         tag = f'c19_{self.name}'
-        kw = {}
+        kw = dict(seed=seed + 11)      # also seeds RandomSubset (separators)
         if self.sim:
             kw = dict(simulate=f'num={self.sim}', depth=self.depth,
                       seed=seed + 11, deadlock=False)
@@ -129,11 +137,12 @@ def jobs_for(tier):
     two = dict(DTs='{"out", "err"}', MaxErr=1)
     marks = dict(DTs='{"in"}', Marks='{"!sig", "!seof"}', MaxMarks=1)
     proc = dict(DTs='{"out", "err"}', MaxErr=1, Proc='TRUE', Ns='{1}',
-                Seps='{"nl"}')
+                **NL_ONLY)
     J = []
     # ---- case generators first (the replay waits for them) ----
+    seps = dict(SepPer=1 if q else 3, MaxSepLen=2 if q else 3)
     tab = dict(MaxBatch=1, MaxCalls=30, PrintAt=60, MaxLen=N,
-               Ns='{1, 2, %d, %d}' % (N, N + 1))
+               Ns='{1, 2, %d}' % (N + 1), **seps)
     for wname, wins in (('9', '{9}'), ('2', '{2}' if q else '{1, 2}')):
         J.append(Job('tab_rfl' + wname, 'Stream',
                      S(Policy='"rfl"', Windows=wins, **tab),
@@ -147,11 +156,11 @@ def jobs_for(tier):
                    Windows='{1, 2}' if q else '{1, 2, 9}',
                    **dict(tab, MaxLen=3 if q else 4,
                           Ns='{1, 3}' if q else '{1, 2, 4, 5}',
-                          Seps='{"nl", "ab", "reK"}')),
+                          **FEW_SEPS)),
                  ['ChunkIndependent'], cases=True, workers=4, heap='6g'))
     sim = dict(MaxLen=5 if q else 6, MaxBatch=3, MaxCalls=8, PrintAt=24,
                Windows='{1, 2, 3, 9}',
-               Ns='{0, 1, 2, 6}' if q else '{0, 1, 2, 3, 5, 6, 7}')
+               Ns='{0, 1, 2, 6}' if q else '{0, 1, 2, 3, 5, 6, 7}', **seps)
     n = 180 if q else 2500
     J.append(Job('sim_two', 'Stream', S(**dict(sim, DTs='{"out", "err"}',
                                                MaxErr=2)),
@@ -164,7 +173,7 @@ def jobs_for(tier):
                  ['ChunkIndependent', 'NothingLost'], cases=True, sim=n,
                  depth=26, workers=2))
     pr = dict(sim, DTs='{"out", "err"}', MaxErr=2, Proc='TRUE', Ns='{1, 3}',
-              Seps='{"nl"}', MaxCalls=3)
+              MaxCalls=3, **NL_ONLY)
     J.append(Job('sim_proc', 'Stream', S(**pr),
                  ['ChunkIndependent', 'NothingLost'], cases=True, sim=n,
                  depth=26, workers=2))
@@ -176,16 +185,16 @@ def jobs_for(tier):
                  heap='1g'))
     # ---- exhaustive design checks ----
     J.append(Job('mc_out', 'Stream',
-                 S(MaxLen=N, Ns='{0, 1, 2, %d, %d}' % (N, N + 1)),
+                 S(MaxLen=N, Ns='{0, 1, 2, %d}' % (N + 1), **seps),
                  INV_STREAM, workers=6, heap='6g'))
     J.append(Job('mc_two', 'Stream',
                  S(MaxLen=3 if q else 4, Windows='{1, 2}',
                    Ns='{2}' if q else '{1, 3}',
-                   Seps='{"nl"}' if q else '{"nl", "ab"}', **two),
+                   **dict(two, **(NL_ONLY if q else FEW_SEPS))),
                  INV_STREAM))
     J.append(Job('mc_marks', 'Stream',
                  S(MaxLen=3 if q else 4, Ns='{0, 1, 3}',
-                   Seps='{"nl", "ab", "reK"}', **marks), INV_STREAM))
+                   **dict(marks, **FEW_SEPS)), INV_STREAM))
     J.append(Job('mc_proc', 'Stream',
                  S(MaxLen=2 if q else 3, Windows='{1, 2}', **proc),
                  INV_STREAM))
@@ -196,12 +205,17 @@ def jobs_for(tier):
                  workers=2, heap='1g'))
     # ---- sensitivity: deliberately wrong rules must be rejected ----
     J.append(Job('sens_search', 'Stream',
-                 S(MaxLen=3, Windows='{9}', Ns='{1}', SearchBug='TRUE'),
+                 S(MaxLen=3, Windows='{9}', Ns='{1}', SearchBug='TRUE',
+                   **FEW_SEPS),
                  ['ChunkIndependent'], expect='ChunkIndependent', workers=2))
     J.append(Job('sens_resume_F11', 'Stream',
-                 S(MaxLen=3, Ns='{1}', Seps='{"nl"}', ResumeFix='FALSE',
-                   **marks), ['ChunkIndependent'], expect='ChunkIndependent',
-                 workers=2))
+                 S(MaxLen=3, Ns='{1}', ResumeFix='FALSE',
+                   **dict(marks, **NL_ONLY)), ['ChunkIndependent'],
+                 expect='ChunkIndependent', workers=2))
+    J.append(Job('sens_sepfix', 'Stream',
+                 S(MaxLen=3, Windows='{9}', Ns='{1}', SepFix='FALSE',
+                   SepShapes='{"nested"}', Regexes='{}'),
+                 ['ChunkIndependent'], expect='ChunkIndependent', workers=2))
     J.append(Job('sens_collect', 'Stream',
                  S(MaxLen=2, Windows='{1}', CollectFix='FALSE', **proc),
                  ['NothingLost'], expect='NothingLost', workers=2))
@@ -213,7 +227,7 @@ def jobs_for(tier):
     J.append(Job('sens_noraise', 'Drain', D(NoRaise='TRUE'), ['DrainSound'],
                  expect='DrainSound', workers=1, heap='1g'))
     # ---- vacuity witnesses: the interesting situations are reachable ----
-    small = dict(MaxLen=3, Windows='{1}', Ns='{1}', Seps='{"nl"}')
+    small = dict(MaxLen=3, Windows='{1}', Ns='{1}', **NL_ONLY)
     J.append(Job('wit_escape', 'Stream', S(**small), ['NeverEscape'],
                  expect='NeverEscape', workers=2))
     if not q:
@@ -231,23 +245,25 @@ def jobs_for(tier):
 
 # Regression schedules (label format of the specification, predictions of the
 # repaired model).
+NL = ['lit', [['n']]]
+AB = ['lit', [['a', 'b']]]
 REGRESSIONS = [
     ('F11 readline after an incomplete read at a signal while paused',
      [2, [['a', 'b', '!sig', 'a', 'n']],
       [['emit', 'data', 'in', ['a', 'b']], ['run', []],
        ['emit', 'mark', 'in', ['!sig']], ['run', []],
        ['emit', 'data', 'in', ['a', 'n']], ['run', []],
-       ['call', 'in', 'line', 0, 'nl', [['in', 'ret', ['a', 'b'], [], '-']]],
-       ['call', 'in', 'line', 0, 'nl', [['in', 'exc', ['!sig'], [], '-']]],
-       ['call', 'in', 'line', 0, 'nl',
+       ['call', 'in', 'line', 0, NL, [['in', 'ret', ['a', 'b'], [], '-']]],
+       ['call', 'in', 'line', 0, NL, [['in', 'exc', ['!sig'], [], '-']]],
+       ['call', 'in', 'line', 0, NL,
         [['in', 'ret', ['a', 'n'], [], '-']]]]]),
     ('F11 readuntil variant, window 1',
      [1, [['a', '!brk', 'b']],
       [['emit', 'data', 'in', ['a']], ['emit', 'mark', 'in', ['!brk']],
        ['run', []],
-       ['call', 'in', 'until', 0, 'ab', [['in', 'inc', ['a'], [], '-']]],
+       ['call', 'in', 'until', 0, AB, [['in', 'inc', ['a'], [], '-']]],
        ['call', 'in', 'read', 1, '-', [['in', 'exc', ['!brk'], [], '-']]],
-       ['call', 'in', 'until', 0, 'ab', []],
+       ['call', 'in', 'until', 0, AB, []],
        ['emit', 'data', 'in', ['b']],
        ['run', [['in', 'inc', ['b'], [], '-']]],
        ['emit', 'eof', 'in', []], ['run', []]]]),
@@ -258,23 +274,40 @@ REGRESSIONS = [
         [['w', 'collect', ['a', 'b'], [], '-']]],
        ['emit', 'data', 'out', ['n']], ['run', []],
        ['call', 'out', 'read', 1, '-', [['out', 'ret', ['n'], [], '-']]]]]),
+    ('longer separator of a tuple straddles a packet boundary (the '
+     'lexicographically largest separator is the shorter one)',
+     [9, [['n', 'a', 'a', 'b']],
+      [['call', 'out', 'until', 0, ['lit', [['b'], ['a', 'a']]], []],
+       ['emit', 'data', 'out', ['n', 'a']], ['run', []],
+       ['emit', 'data', 'out', ['a', 'b']],
+       ['run', [['out', 'ret', ['n', 'a', 'a'], [], '-']]],
+       ['call', 'out', 'until', 0, ['lit', [['b'], ['a', 'a']]],
+        [['out', 'ret', ['b'], [], '-']]]]]),
+    ('nested separators: the match that ends first wins in one packet too',
+     [9, [['a', 'b', 'n', 'a']],
+      [['call', 'out', 'until', 0, ['lit', [['a', 'b', 'n'], ['b']]], []],
+       ['emit', 'data', 'out', ['a', 'b', 'n', 'a']],
+       ['run', [['out', 'ret', ['a', 'b'], [], '-']]],
+       ['call', 'out', 'until', 0, ['lit', [['a', 'b', 'n'], ['b']]], []],
+       ['emit', 'eof', 'out', []],
+       ['run', [['out', 'inc', ['n', 'a'], [], '-']]]]]),
     ('separator spanning a chunk boundary, leftover kept',
      [9, [['n', 'a', 'b', 'a', 'b']],
-      [['call', 'out', 'until', 0, 'ab', []],
+      [['call', 'out', 'until', 0, AB, []],
        ['emit', 'data', 'out', ['n', 'a']], ['run', []],
        ['emit', 'data', 'out', ['b', 'a']],
        ['run', [['out', 'ret', ['n', 'a', 'b'], [], '-']]],
        ['emit', 'data', 'out', ['b']], ['run', []],
-       ['call', 'out', 'until', 0, 'ab',
+       ['call', 'out', 'until', 0, AB,
         [['out', 'ret', ['a', 'b'], [], '-']]]]]),
     ('window escape: line longer than the window',
      [2, [['a', 'b', 'n']],
-      [['call', 'out', 'line', 0, 'nl', []],
+      [['call', 'out', 'line', 0, NL, []],
        ['emit', 'data', 'out', ['a']], ['run', []],
        ['emit', 'data', 'out', ['b']],
        ['run', [['out', 'ret', ['a', 'b'], [], '-']]],
        ['emit', 'data', 'out', ['n']], ['run', []],
-       ['call', 'out', 'line', 0, 'nl', [['out', 'ret', ['n'], [], '-']]]]]),
+       ['call', 'out', 'line', 0, NL, [['out', 'ret', ['n'], [], '-']]]]]),
 ]
 
 TARGETS = ['file', 'process', 'name', 'devnull', 'stream']
@@ -299,9 +332,51 @@ class Replayer:
         self.by_world = {}
         self.loopexc = 0
         self.waited = 0.0
+        self.groups = {}
 
     def close(self):
         self.h.close()
+
+    # chunk independence as such: for one (stream, request) every chunking,
+    # reader-first or data-first, must produce the same sequence of pieces
+    # (window 9 = never reached; read(n > 0) returns "what is available" and
+    # is excluded)
+    def group(self, case, res):
+        call = next((l for l in case[2] if l[0] == 'call'), None)
+        if call is None or (call[2] == 'read' and call[3] > 0):
+            return
+        sep = self.stream.norm_sep(call[4])
+        key = (json.dumps(case[1]), call[2], call[3], sep)
+        pieces = tuple((e[3][0], tuple(e[3][1])) for e in res['log']
+                       if e[0] == 'done' and e[1] == call[1])
+        # whether a last call was started before EOF arrived (and then
+        # reports EOF with an empty piece) depends on the schedule, not on
+        # the chunking
+        while pieces and not pieces[-1][1]:
+            pieces = pieces[:-1]
+        g = self.groups.setdefault(key, {})
+        g.setdefault(pieces, case)
+
+    def judge_groups(self):
+        ctx = self.ctx
+        n = 0
+        for (streams, kind, cn, sep), g in self.groups.items():
+            n += 1
+            if len(g) < 2:
+                continue
+            (p1, c1), (p2, c2) = list(g.items())[:2]
+            shape = self.stream.sep_shape(sep) if kind == 'until' else ''
+            ctx.violation(
+                {'module': 'Stream', 'clause': 'chunk-dependent',
+                 'call': kind, 'separators': shape,
+                 'context': 'nested-separators' if shape == 'nested' else ''},
+                f'{kind}({cn if kind != "until" else sep}) on stream '
+                f'{streams} returned {list(p1)} with packets '
+                f'{[l[3] for l in c1[2] if l[0] == "emit"]} but {list(p2)} '
+                f'with packets {[l[3] for l in c2[2] if l[0] == "emit"]}',
+                replay={'kind': 'case', 'world': 'group', 'case': c2,
+                        'opts': {}})
+        return n
 
     def one(self, world, case, idx):
         ctx = self.ctx
@@ -310,7 +385,7 @@ class Replayer:
             not any(l[0] == 'call' and l[1] == 'w' for l in case[2])
         opts = dict(text=bool(idx % 2),
                     api='session' if pure and idx % 3 == 0 else 'process',
-                    remax=REMAX)
+                    remax=REMAX, seqtype='list' if idx % 4 < 2 else 'tuple')
         if world == 'sim_redir':
             opts['target'] = TARGETS[idx % len(TARGETS)]
         try:
@@ -336,8 +411,12 @@ class Replayer:
             sig = {'module': 'Stream', 'clause': clause,
                    'call': spec[0] if spec else None, 'reader': res['role'],
                    'context': stale}
+            if spec and spec[0] == 'until':
+                sig['separators'] = self.stream.sep_shape(spec[2])
             ctx.violation(sig, detail, replay={'kind': 'case', 'world': world,
                                                'case': case, 'opts': opts})
+        if world in ('tab_rfl9', 'tab_dfl') and not res['divergences']:
+            self.group(case, res)
         if res['divergences'] and not res['violations']:
             ctx.divergence(f'{world}: {res["divergences"][0]} case={case}')
         if res['loop_exceptions']:
@@ -345,6 +424,22 @@ class Replayer:
             if self.loopexc <= 3:
                 ctx.divergence(f'{world}: exception reached the event loop: '
                                f'{res["loop_exceptions"][0]} case={case}')
+
+
+def select_tab(stream, cases, quick, seed, cap):
+    """Tables: every case with a packet boundary strictly inside a separator
+    occurrence is kept (up to cap), the rest is sampled."""
+    rnd = random.Random(seed)
+    if not quick:
+        cap *= 12
+    pri = [c for c in cases if stream.cut_inside_match(c)]
+    rest = [c for c in cases if not stream.cut_inside_match(c)]
+    if len(pri) > cap * 2 // 3:
+        pri = rnd.sample(pri, cap * 2 // 3)
+    room = max(cap - len(pri), 0)
+    if len(rest) > room:
+        rest = rnd.sample(rest, room)
+    return pri + rest, len(pri)
 
 
 def select(cases, quick, seed, cap, stride=1):
@@ -462,13 +557,22 @@ def main(ctx):
             cases = job.case_list
             ctx.require(len(cases) > 0, f'{world}: TLC produced no cases\n' +
                         res.output[-1500:])
-            sel = select(cases, quick, ctx.seed, cap, stride)
+            if world.startswith('tab_'):
+                sel, npri = select_tab(stream, cases, quick, ctx.seed, cap)
+                ctx.notes.append(f'{world}: {npri} of the replayed cases have '
+                                 f'a packet boundary inside a separator '
+                                 f'occurrence')
+            else:
+                sel = select(cases, quick, ctx.seed, cap, stride)
             for i, case in enumerate(sel):
                 rp.one(world, case, i)
             total += len(sel)
             ctx.notes.append(f'{world}: {len(cases)} cases generated, '
                              f'{len(sel)} replayed')
 
+        ngroups = rp.judge_groups()
+        ctx.notes.append(f'chunk-independence groups (stream, request) '
+                         f'compared across chunkings: {ngroups}')
         job = futs['sim_drain'].result()
         if job.res.error or job.res.violation:
             ctx.require_tlc_ok('sim_drain (case generation)', job.res)
